@@ -255,6 +255,18 @@ def dialects(extra_variants=False):
         v["oracle/no-ansi"] = oracle.dialect(use_ansi=False)
         v["default/qmark"] = default.DefaultDialect(paramstyle="qmark")
         v["strcompile"] = default.StrCompileDialect()
+        # every positional / numeric paramstyle on every dialect family (paramstyle is a generic dialect argument)
+        for fam, mod in (("sqlite", sqlite), ("postgresql", postgresql), ("mysql", mysql), ("mssql", mssql), ("oracle", oracle)):
+            for ps in ("numeric", "numeric_dollar", "qmark", "format", "pyformat", "named"):
+                key = f"{fam}/{ps}"
+                if key not in v and ps != mod.dialect().paramstyle:
+                    v[key] = mod.dialect(paramstyle=ps)
+        try:
+            from sqlalchemy.dialects.postgresql import asyncpg
+
+            v["postgresql/asyncpg"] = asyncpg.dialect()
+        except Exception:
+            pass
         d.update(v)
     return d
 
